@@ -15,6 +15,25 @@ open Rzmq
 theorem compat_symmetric (x y : SockName) : typesCompatible x y = typesCompatible y x := by
   cases x <;> cases y <;> decide
 
+/-- the valid ZeroMQ pairings, written down from the pattern RFCs (28/REQREP: REQ–REP, REQ–ROUTER, DEALER–REP, DEALER–ROUTER,
+DEALER–DEALER, ROUTER–ROUTER; 29/PUBSUB: PUB–SUB, PUB–XSUB, XPUB–SUB, XPUB–XSUB; 30/PIPELINE: PUSH–PULL; 31/EXPAIR:
+PAIR–PAIR) — a specification independent of the source, unlike `Gen.typeCompat`, which is re-extracted from it -/
+def zeromqPairing : SockName → SockName → Bool
+  | .REQ, .REP | .REP, .REQ | .REQ, .ROUTER | .ROUTER, .REQ => true
+  | .DEALER, .REP | .REP, .DEALER | .DEALER, .ROUTER | .ROUTER, .DEALER => true
+  | .DEALER, .DEALER | .ROUTER, .ROUTER => true
+  | .PUB, .SUB | .SUB, .PUB | .PUB, .XSUB | .XSUB, .PUB => true
+  | .XPUB, .SUB | .SUB, .XPUB | .XPUB, .XSUB | .XSUB, .XPUB => true
+  | .PUSH, .PULL | .PULL, .PUSH => true
+  | .PAIR, .PAIR => true
+  | _, _ => false
+
+/-- the verdict of the code's table (as it is in the source now) is the ZeroMQ pairing relation, for every pair of socket
+type names including the ones rzmq only meets on the wire and unknown names: a pairing added to or dropped from
+`socket_types_compatible` — symmetrically or not — breaks this theorem -/
+theorem verdict_is_the_zeromq_pairing (x y : SockName) : typesCompatible x y = zeromqPairing x y := by
+  cases x <;> cases y <;> decide
+
 /-- ZMTP/2.0 and ZMTP/3.x use the same table (`socket_types_compatible`) -/
 theorem v2_v3_same_table : Gen.v2UsesSharedTable = 1 ∧ Gen.v3ValidatesSocketType = 1 := by
   decide
